@@ -1,10 +1,11 @@
 #!/usr/bin/env python3
-# tools/refac_targets.py <refactor-name>: the checks whose anchored files (properties.jsonl) a refactoring touches,
+# tools/refac_targets.py <refactor-name> | <Cxx> <path/to/diff>: the checks whose anchored files (properties.jsonl) a refactoring touches,
 # plus the check of the property it was written against and the checks that consume the touched crate.
 import json,sys,re
 name=sys.argv[1]
 props=[json.loads(l) for l in open('/verif/properties.jsonl')]
-files=[l[6:].strip() for l in open(f'/verif/refactors/{name}/patch.diff') if l.startswith('+++ b/')]
+diff=sys.argv[2] if len(sys.argv)>2 else f'/verif/refactors/{name}/patch.diff'
+files=[l[6:].strip() for l in open(diff) if l.startswith('+++ b/')]
 sel={name.split('-')[0]}
 for p in props:
     if set(p['anchors']['files']) & set(files): sel.add(p['id'])
